@@ -309,10 +309,21 @@ class World:
         temps = []
         args = []
         for i, s in enumerate(rec.get('args', [])):
+            if 'same' in s:
+                j = int(s['same'])
+                args.append(args[j] if 0 <= j < len(args) else None)
+                self.probe('p_same_object_in_two_positions')
+                continue
             args.append(self.resolve(s, temps, 'arg%d' % i, recv))
         kwargs = {}
         for k in sorted(rec.get('kwargs', {})):
-            kwargs[k] = self.resolve(rec['kwargs'][k], temps, 'kw:' + k, recv)
+            s = rec['kwargs'][k]
+            if 'same' in s:
+                j = int(s['same'])
+                kwargs[k] = args[j] if 0 <= j < len(args) else None
+                self.probe('p_same_object_in_two_positions')
+                continue
+            kwargs[k] = self.resolve(s, temps, 'kw:' + k, recv)
         if how in ('op', 'iop') and args and is_sm_object(args[0]) and _length(args[0]) > 1:
             self.probe('p_multi_valued_receiver')
         argvals = [('arg%d' % i, a) for i, a in enumerate(args)] + \
@@ -622,6 +633,8 @@ def gen_config(rng):
         'multi_rate': rng.choice([0.1, 0.4]),
         'poke_rate': rng.choice([0.0, 0.5, 0.5]),
         'opt_rate': rng.choice([0.15, 0.4, 0.85]),
+        'special_rate': rng.choice([0.0, 0.1, 0.1, 0.5]),
+        'dup_rate': rng.choice([0.0, 0.1, 0.3]),
     }
 
 
@@ -636,13 +649,15 @@ def _gen_array_spec(kind, rng, cfg):
         form = rng.choice(values.VEC_FORMS)
     else:
         form = rng.choice(values.MAT_FORMS)
-    return {'gen': kind, 'k': rng.randrange(8), 'form': form}
+    return {'gen': kind, 'k': rng.randrange(8) if rng.random() > cfg.get('special_rate', 0.0)
+            else 8 + rng.randrange(4), 'form': form}
 
 
 def make_spec(kind, world, cfg, rng, recv_cls):
     """Build an argument spec for one kind.  May raise NeedObject."""
     if kind in values.SCALAR_KINDS:
-        s = {'lit': values.gen_scalar(kind, rng.randrange(8))}
+        s = {'lit': values.gen_scalar(kind, rng.randrange(12 if rng.random() < cfg.get('special_rate', 0.0)
+                                                         else 8))}
         if kind in ('ang', 'sc', 's01') and rng.random() < 0.15:
             s['np'] = 'float'
         elif kind in ('int', 'posint') and rng.random() < 0.1:
@@ -746,6 +761,7 @@ def gen_call(entry, world, cfg, rng, recv_ref=None, multi=False):
     tmpl = rng.choice(templates)
     args, kwargs = [], {}
     positional = True
+    prev = None
     for (pname, optional, kinds) in tmpl:
         if optional and rng.random() > (0.5 if cfg.get('focus') == 'deep' else cfg.get('opt_rate', 0.3)):
             positional = False
@@ -754,7 +770,15 @@ def gen_call(entry, world, cfg, rng, recv_ref=None, multi=False):
         if multi:
             ks = [k for k in kinds if k.startswith('L:')] or kinds
         kind = rng.choice(ks)
-        spec = make_spec(kind, world, cfg, rng, recv_cls)
+        if prev is not None and prev[0] in ks and rng.random() < cfg.get('dup_rate', 0.0) \
+                and ('ref' in prev[1] or 'recv' in prev[1] or ('gen' in prev[1] and args
+                                                                 and args[-1] is prev[1])):
+            # the same live value in two argument positions: f(x, x)
+            kind = prev[0]
+            spec = prev[1] if 'gen' not in prev[1] else {'same': len(args) - 1}
+        else:
+            spec = make_spec(kind, world, cfg, rng, recv_cls)
+        prev = (kind, spec)
         if positional and not optional and pname != 'file':
             args.append(spec)
         else:
@@ -912,6 +936,8 @@ def _simplify_spec(s):
             out.append(dict(s, k=0))
     if 'ref' in s and s['ref'] != 0:
         out.append({'ref': 0})
+    if 'same' in s:
+        out.append({'gen': 'v3', 'k': 0, 'form': 'array'})
     if 'np' in s:
         t = dict(s)
         t.pop('np')
